@@ -219,8 +219,12 @@ func runC03(run *core.Run) {
 		reps := 1 + r.Intn(3)
 		for k := 0; k < reps; k++ {
 			l := &gen.Layout{R: r, Wild: r.Intn(6) != 0, CRLF: r.Intn(4) == 0, Comments: r.Intn(2) == 0}
+			if i%64 == 7 && k == 0 {
+				l.Long = 66000 + r.Intn(9000) // a comment line longer than 64 KiB
+				run.Count("texts_with_a_line_over_64KiB", 1)
+			}
 			txt := d.Render(l)
-			if k == 0 {
+			if k == 0 && l.Long == 0 {
 				first = txt
 			}
 			ok := parseAndCompare(run, txt, modular, exp, expExt, "random layout")
@@ -238,6 +242,21 @@ func runC03(run *core.Run) {
 		}
 		run.SampleAt(i, n/3+1, func() any { return first })
 	})
+	// very long code lines (definitions cannot be wrapped): thousands of restrictions / operands on one line
+	for _, long := range []*gen.Doc{
+		{Schema: "1.1", Types: []gen.TypeDef{{Name: "t", Rels: []gen.Relation{{Name: "r", Expr: manyRestrictions(9000)}}}, {Name: "after", Rels: []gen.Relation{{Name: "x", Expr: &gen.Expr{Kind: "computed", Name: "y"}}}}},
+			Conds: []gen.Cond{{Name: "c", Params: []gen.Param{{Name: "x", Type: "int"}}, Expr: "x < 1"}}},
+		{Module: "m", Types: []gen.TypeDef{{Name: "t", Rels: []gen.Relation{{Name: "r", Expr: manyOperands(11000)}}}, {Name: "after", Extend: true, Rels: []gen.Relation{{Name: "x", Expr: &gen.Expr{Kind: "computed", Name: "y"}}}}}},
+	} {
+		exp, expExt := long.Expected()
+		if long.Module == "" {
+			expExt = nil
+		}
+		txt := long.Render(&gen.Layout{})
+		if parseAndCompare(run, txt, long.Module != "", exp, expExt, "very long code line") {
+			run.Count("texts_with_a_code_line_over_64KiB", 1)
+		}
+	}
 	// exhaustive layouts of tiny ASTs
 	docs := tinyDocs()
 	limit := 20000
@@ -303,4 +322,20 @@ func replayC03(run *core.Run, c *core.Case) {
 		}
 	}
 	parseAndCompare(run, c.DSL, modular, exp, expExt, "replay")
+}
+
+func manyRestrictions(n int) *gen.Expr {
+	e := &gen.Expr{Kind: "direct"}
+	for i := 0; i < n; i++ {
+		e.Restr = append(e.Restr, gen.Restriction{Type: "user", Relation: fmt.Sprintf("r%d", i%7)})
+	}
+	return e
+}
+
+func manyOperands(n int) *gen.Expr {
+	e := &gen.Expr{Kind: "or"}
+	for i := 0; i < n; i++ {
+		e.Kids = append(e.Kids, &gen.Expr{Kind: "computed", Name: fmt.Sprintf("r%d", i%9)})
+	}
+	return e
 }
